@@ -20,11 +20,11 @@ theorem addRef_ns (a : AS) (s t : NodeRef) (rt : Nat) :
     (a.addRef s t rt).namespaces = a.namespaces ∧ (a.addRef s t rt).internalNs = a.internalNs := by
   unfold AS.addRef; split <;> simp
 
-theorem addNodeTail_ns (a1 : AS) (newId : NodeRef) (r : AddNodeReq) (rt : Nat) :
-    (addNodeTail a1 newId r rt).2.namespaces = a1.namespaces ∧
-    (addNodeTail a1 newId r rt).2.internalNs = a1.internalNs := by
+theorem addNodeTail_ns (v : Variant) (a1 : AS) (newId : NodeRef) (r : AddNodeReq) (rt : Nat) :
+    (addNodeTail v a1 newId r rt).2.namespaces = a1.namespaces ∧
+    (addNodeTail v a1 newId r rt).2.internalNs = a1.internalNs := by
   unfold addNodeTail
-  iterate 4 (split; · exact ⟨rfl, rfl⟩)
+  iterate 5 (split; · exact ⟨rfl, rfl⟩)
   simp only []
   split
   · simp [(addRef_ns _ _ _ _).1, (addRef_ns _ _ _ _).2]
@@ -37,12 +37,13 @@ theorem addNode_ns (v : Variant) (a : AS) (c : Bool) (r : AddNodeReq) :
   split
   · exact ⟨rfl, rfl⟩
   · split
-    · exact addNodeTail_ns _ _ _ _
-    · exact addNodeTail_ns _ _ _ _
+    · exact addNodeTail_ns _ _ _ _ _
+    · exact addNodeTail_ns _ _ _ _ _
 
 theorem addNodeTail_total (a1 : AS) (newId : NodeRef) (r : AddNodeReq) (rt : Nat)
-    (h : newId.ns ≤ a1.namespaces) (site : Site) : (addNodeTail a1 newId r rt).1 ≠ .panic site := by
-  unfold addNodeTail
+    (h : newId.ns ≤ a1.namespaces) (site : Site) : (addNodeTail repaired a1 newId r rt).1 ≠ .panic site := by
+  unfold addNodeTail repaired
+  simp only [Bool.not_true, Bool.false_and, Bool.false_eq_true, ↓reduceIte]
   iterate 3 (split; · simp)
   split
   · rename_i hns; simp only [decide_eq_true_eq] at hns; omega
@@ -183,7 +184,7 @@ example : WF demoAS := by decide
 /-- an Object under the Objects folder, everything valid -/
 def demoReq : AddNodeReq :=
   { reqId := .null, reqServerIndex := 0, cls := 1, bnNull := false, bnNs := 0, bn := 7, bnParses := true,
-    parent := ⟨0, 85⟩, parentServerIndex := 0, refType := some 35, typeDef := ⟨0, 58⟩, attrs := .fits 1 }
+    parent := ⟨0, 85⟩, parentServerIndex := 0, refType := some 35, typeDef := ⟨0, 58⟩, attrs := .fits 1 false }
 
 example : (addNode repaired demoAS true demoReq).1 = .status .Good := by decide
 example : (addNode pinned demoAS true demoReq).1 = .status .Good := by decide
@@ -205,6 +206,15 @@ theorem C33_counterexample_self_reference :
     (addReference pinned demoAS true
       { src := ⟨0, 85⟩, tgt := ⟨0, 85⟩, tgtServerIndex := 0, uriNull := true, tgtClass := 1,
         refType := some 35, isForward := true }).1 = .panic .selfReference := by
+  decide
+
+/-- a Variable whose attributes specify ArrayDimensions as null: `from_attributes` unwraps it in the
+pinned source -/
+theorem C33_counterexample_null_array_dimensions :
+    (addNode pinned { demoAS with nodes := demoAS.nodes ++ [⟨⟨0, 63⟩, 16, 0, 3⟩] } true
+      { demoReq with cls := 2, typeDef := ⟨0, 63⟩, attrs := .fits 2 true }).1 = .panic .arrayDimensions ∧
+    (addNode repaired { demoAS with nodes := demoAS.nodes ++ [⟨⟨0, 63⟩, 16, 0, 3⟩] } true
+      { demoReq with cls := 2, typeDef := ⟨0, 63⟩, attrs := .fits 2 true }).1 = .status .Good := by
   decide
 
 /-- the same three requests on the repaired source -/
